@@ -8,6 +8,7 @@ import ast
 import re
 
 from ..engine import rule
+from ..descriptors import arm_descriptors
 from ..py_frontend import (dotted, call_name, calls_under, walk, param_names, is_name, src, pycfg)
 from ..cfg import cfg_of, const_eval
 from ..cxx_ir import CALL_KINDS
@@ -377,16 +378,37 @@ def d2(ctx):
             sorts = [c for c in calls_in(f.body, {'TotalOrderSort', 'SortedDictKeys'})]
             tparam = f.targ('DictShouldBeSorted')
             site = short(f) + '/key-sort'
+            # per kind, from the arm descriptors (helpers and local lambdas are looked through,
+            # conditions on the kind are resolved): which dict kinds get their keys sorted
+            d_ = arm_descriptors(prog, f)
+            sorted_kinds = {k for k in ('Dict', 'OrderedDict', 'DefaultDict')
+                            if k in d_ and any(e[0] == 'sort' for e in d_[k].events)}
             if tparam is not None:
                 want = tparam in ('-1', '1', 'true')
-                ctx.check(site + '/template', bool(sorts) == want,
+                wk = {'Dict', 'DefaultDict'} if want else set()
+                ctx.check(site + '/template', sorted_kinds == wk,
                           '%s: keys are sorted iff DictShouldBeSorted (%s)' % (inst(f), want),
-                          '%s: DictShouldBeSorted=%s but %d sort call(s) in the dict arm'
-                          % (inst(f), want, len(sorts)), f.loc)
+                          '%s: DictShouldBeSorted=%s but the kinds whose keys are sorted are %s'
+                          % (inst(f), want, sorted(sorted_kinds)), f.loc)
+                sites += 1
+            else:
+                ctx.check(site + '/kinds', sorted_kinds == {'Dict', 'DefaultDict'},
+                          '%s: dict and defaultdict keys can be sorted, OrderedDict keys never are' % inst(f),
+                          '%s: the kinds whose keys can be sorted are %s' % (inst(f), sorted(sorted_kinds)),
+                          f.loc)
                 sites += 1
             if not sorts:
-                if tparam is None:
+                if tparam is None and not sorted_kinds:
                     ctx.bad(site, '%s never sorts dict keys' % inst(f), f.loc)
+                elif tparam is None:
+                    # the sort lives in a helper: the mode guard is read off the arm's guards
+                    gs = [g for k in sorted_kinds for e in d_[k].events if e[0] == 'sort' for g in e[2]]
+                    okm = bool(gs) and all(re.search(r'!\(?\w*[Ii]nsertion_?[Oo]rdered', g) for g in gs)
+                    ctx.check(site + '/mode', okm,
+                              '%s: the sort is guarded by "insertion-ordered mode is off"' % inst(f),
+                              '%s: the sort is not guarded by the dict-order mode (guards: %s)'
+                              % (inst(f), gs), f.loc)
+                    sites += 1
                 continue
             parent = enclosing_map(f.body)
             inits = local_inits(f)
